@@ -15,6 +15,7 @@ import (
 // C06 — the server survives arbitrary input and disconnects, cleaning up exactly once.
 //
 //	cut    every transcript of a corpus, cut at every octet offset, then the client closes
+//	gone   the client end is closed before the server writes its greeting
 //	gen    grammar-generated command sequences (the C04 generator), played faithfully
 //	mut    the same, with octet-level mutations, framed by sfParse and played faithfully
 //	junk   raw garbage
@@ -250,6 +251,14 @@ func genC06(e *emitter, tier string, seed uint64) {
 		return []caseLine{{kind: "cut", fields: c06Fields(j.lit, false, j.k, o), counts: []string{"cut"}}}
 	})
 
+	// (a') the peer is gone before the greeting can be written
+	for i := 0; i < 24; i++ {
+		lit := lits[i%3]
+		o := pool.with(lit, i%2 == 1, func(env *sfEnv) sfObs { return env.dialGone().observe() })
+		e.emit("gone", c06Fields(lit, i%2 == 1, 0, o)...)
+		e.count("gone")
+	}
+
 	// (b) generated, mutated, garbage
 	base := newRng(seed, "C06")
 	n := nGen + nMut + nJunk
@@ -329,6 +338,10 @@ func replayC06(e *emitter, kind string, f []string) {
 	case "leak":
 		fmt.Fprintln(os.Stderr, "the leak line summarises a whole run; re-run ./check C06")
 		e.emit("leak", f...)
+	case "gone":
+		env := newSfEnv(f[0], f[1] == "1")
+		defer env.close()
+		e.emit("gone", c06Fields(f[0], f[1] == "1", 0, env.dialGone().observe())...)
 	default:
 		// lit preauth cut delivered …: the delivered octets are replayed as they are
 		env := newSfEnv(f[0], f[1] == "1")
